@@ -45,7 +45,14 @@ pub fn build(members: Option<&[(String, Ty)]>, variant: &str, family: &str, seed
             }
             let g2 = graph.clone();
             let mut vg = ValGen { graph: &g2, nodes: 0, node_limit: 20 };
-            dom_vals.push((n.clone(), vg.val(&mut u, t, 1)));
+            let undefined = matches!(t, Ty::Struct(name) if g2.get(name).is_none());
+            if undefined {
+                // a raw, undefined type name: give the value a user would give for the standard field
+                let std_ty = standard_domain_fields().iter().find(|(sn, _)| sn == n).map(|(_, st)| st.clone()).unwrap_or(Ty::String);
+                dom_vals.push((n.clone(), vg.val(&mut u, &std_ty, 1)));
+            } else {
+                dom_vals.push((n.clone(), vg.val(&mut u, t, 1)));
+            }
         }
     }
     let domain = Val::Struct(dom_vals);
@@ -63,7 +70,10 @@ pub fn build(members: Option<&[(String, Ty)]>, variant: &str, family: &str, seed
         Val::Struct(f) => J::Obj(
             f.iter()
                 .map(|(n, v)| {
-                    let t = members.and_then(|ms| ms.iter().find(|(mn, _)| mn == n)).map(|(_, t)| t.clone()).unwrap_or(Ty::String);
+                    let mut t = members.and_then(|ms| ms.iter().find(|(mn, _)| mn == n)).map(|(_, t)| t.clone()).unwrap_or(Ty::String);
+                    if matches!(&t, Ty::Struct(name) if graph.get(name).is_none()) {
+                        t = standard_domain_fields().iter().find(|(sn, _)| sn == n).map(|(_, st)| st.clone()).unwrap_or(Ty::String);
+                    }
                     (n.clone(), td::render_val(&t, v, &graph, &mut u))
                 })
                 .collect(),
@@ -100,7 +110,9 @@ fn judge(c: &Case, cls: &mut Classifier) -> Verdict {
     let docs = crate::engine::truncate(&c.doc, 900);
     let well = c.members.as_deref().map(domain_well_formed).unwrap_or(false);
     let shown: Vec<String> = c.members.as_deref().unwrap_or(&[]).iter().map(|(n, t)| format!("{} {}", t.name(), n)).collect();
-    let got = catch(|| serde_json::from_str::<TypedData>(&c.doc).map(|t| (t.domain_separator().0, t.message_hash().0, t.signing_message().0)).map_err(|e| e.to_string()));
+    let got = crate::isolate::inflight("typeddata", c.doc.as_bytes(), "generated", || {
+        catch(|| serde_json::from_str::<TypedData>(&c.doc).map(|t| (t.domain_separator().0, t.message_hash().0, t.signing_message().0)).map_err(|e| e.to_string()))
+    });
     let got = match got {
         Ok(g) => g,
         Err(p) => return fail("result or error", p, format!("typed-data handling panicked for domain type ({}): {docs}", shown.join(","))),
@@ -153,6 +165,22 @@ pub fn near_miss_types() -> Vec<Ty> {
         Ty::Address,
         Ty::Uint(256),
         Ty::Struct("Foo".into()),
+        // raw type strings that are NOT the standard type (rendered verbatim; none of them is a defined struct)
+        Ty::Struct("uint".into()),
+        Ty::Struct("int".into()),
+        Ty::Struct("byte".into()),
+        Ty::Struct("bytes32 ".into()),
+        Ty::Struct(" string".into()),
+        Ty::Struct("String".into()),
+        Ty::Struct("Address".into()),
+        Ty::Struct("address payable".into()),
+        Ty::Struct("uint0256".into()),
+        Ty::Struct("uint 256".into()),
+        Ty::Struct("UINT256".into()),
+        Ty::Struct("bytes032".into()),
+        Ty::Struct("bytes".to_string() + "32\u{0}"),
+        Ty::Struct("uint256[0]".into()),
+        Ty::Struct("string memory".into()),
     ]
 }
 
@@ -270,12 +298,12 @@ fn gen_mixture(tape: Vec<u8>) -> Case {
 }
 
 pub fn run(ctx: &mut Ctx) {
-    ctx.rule = "EIP712Domain member lists: (i) all 326 duplicate-free orderings of subsets of the five standard fields, each with a valid message, a malformed message and with EIP712Domain as primaryType; (ii) all 3905 sequences of length 1..5 over the five names with repetition; (iii) each of the 31 well-formed domains with one field's type replaced by each of 17 near-miss types; (iv) a foreign field (10 names) inserted at every position of each well-formed domain; (v) no EIP712Domain entry; (vi) generated mixtures. Domain values are generated to match the declared members so the domain type is the only variable. Oracle: truth table accepted <=> non-empty, standard (name,type) pairs, no repeats, standard relative order; accepted documents must hash to the reference domain separator/digest; refused ones are Err whatever the message is. Non-trivial: all; distinct by document.".into();
+    ctx.rule = "EIP712Domain member lists: (i) all 326 duplicate-free orderings of subsets of the five standard fields, each with a valid message, a malformed message and with EIP712Domain as primaryType; (ii) all 3905 sequences of length 1..5 over the five names with repetition; (iii) each of the 31 well-formed domains with one field's type replaced by each of 32 near-miss types (17 other EIP-712 types and 15 raw type strings such as uint, int, String, 'bytes32 ', uint0256); (iv) a foreign field (10 names) inserted at every position of each well-formed domain; (v) no EIP712Domain entry; (vi) generated mixtures. Domain values are generated to match the declared members so the domain type is the only variable. Oracle: truth table accepted <=> non-empty, standard (name,type) pairs, no repeats, standard relative order; accepted documents must hash to the reference domain separator/digest; refused ones are Err whatever the message is. Non-trivial: all; distinct by document.".into();
     ctx.assumptions = vec![];
     ctx.replay_known_and_regressions(&replay);
     let cases = enumerate(ctx.seed);
     ctx.run_cases("enumerated", &cases, judge);
-    ctx.exhaustive_parts.push("326 orderings; 3905 sequences with repetition; 31 x fields x 17 type substitutions; foreign field at every position; missing domain type".into());
+    ctx.exhaustive_parts.push("326 orderings; 3905 sequences with repetition; 31 x fields x 32 type substitutions; foreign field at every position; missing domain type".into());
     let n = ctx.tier.pick(50_000, 500_000);
     ctx.run_prop("mixture", n, || crate::gen::tape(300).prop_map(gen_mixture), judge);
     ctx.floor_abs("accepted-well-formed", 31 * 2);
